@@ -32,6 +32,10 @@ def import_repo():
     import phylib  # noqa
     import logging
     logging.disable(logging.ERROR)
+    import warnings
+    import numpy
+    warnings.simplefilter('ignore')
+    numpy.seterr(all='ignore')
     got = Path(phylib.__file__).resolve().parent.parent
     if got != REPO.resolve():
         raise MachineryError('phylib imported from %s, not from %s' % (got, REPO))
